@@ -92,6 +92,9 @@ impl Five {
 
             let product = crate::lookups::PRODUCTS[mid] as usize;
             if key < product {
+                if mid == 0 {
+                    break;
+                }
                 high = mid - 1;
             } else if key > product {
                 low = mid + 1;
@@ -103,7 +106,12 @@ impl Five {
     }
 
     fn not_unique(&self) -> HandRankValue {
-        crate::lookups::VALUES[Five::find_in_products(self.multiply_primes())]
+        let key = self.multiply_primes();
+        let index = Five::find_in_products(key);
+        if crate::lookups::PRODUCTS[index] as usize != key {
+            return crate::hand_rank::NO_HAND_RANK_VALUE;
+        }
+        crate::lookups::VALUES[index]
     }
 
     #[allow(clippy::cast_possible_truncation)]
